@@ -510,8 +510,56 @@ class World:
         return (self.conf, self.wrap, self.pv, self.wv, tv, None if self.last is None else self.last[:2], self.edited)
 
 
+def integer_points(ctx):
+    """The grid's own POINT array in an integer dtype (a lattice of whole numbers), lattice vectors that are not whole numbers,
+    centres with a fractional part: the answer is that of the same points in floats and of the brute-force image search
+    (the dtype of the object's own arrays, lesson 20; wrap off -- wrapping integer points by fractional vectors has no
+    integer answer)."""
+    import itertools as it
+
+    from grid.periodicgrid import PeriodicGrid
+
+    rng = np.random.default_rng([ctx.seed, 97])
+    sets = {1: np.arange(6), 2: np.array(list(it.product(range(3), range(4)))), 3: np.array(list(it.product(range(3), repeat=3)))}
+    vecs = {1: np.array([6.5]), 2: np.array([[3.5, 0.0], [0.5, 4.25]]), 3: np.array([[3.5, 0.0, 0.0], [0.0, 3.25, 0.5], [0.25, 0.0, 3.75]])}
+    for dim, pts in sets.items():
+        w = rng.uniform(0.1, 1.0, len(pts))
+        for dt in (np.int64, np.int32):
+            with warnings.catch_warnings():
+                warnings.simplefilter("ignore")
+                try:
+                    gi = PeriodicGrid(pts.astype(dt), w.copy(), vecs[dim], wrap=False)
+                    gf = PeriodicGrid(pts.astype(float), w.copy(), vecs[dim], wrap=False)
+                except Exception as exc:
+                    ctx.violation(f"integer-points:construct:raised:{type(exc).__name__}", f"PeriodicGrid(integer points, dim {dim}): {exc}", {"route": "integer-points"})
+                    continue
+                for c in ([0.5, 1.5, 2.25], [2.75, 0.25, 0.5], [7.25, -3.5, 1.75]):
+                    cen = np.float64(c[0]) if dim == 1 else np.array(c[:dim])
+                    for r in (0.6, 1.3, 2.2, 4.1):
+                        ctx.count(section="integer-points")
+                        case = {"route": "integer-points", "dim": dim, "dtype": np.dtype(dt).name, "centre": c[:dim], "radius": r}
+                        try:
+                            a, b = gi.get_localgrid(cen, r), gf.get_localgrid(cen, r)
+                        except Exception as exc:
+                            ctx.violation(f"integer-points:raised:{type(exc).__name__}", f"dim {dim}: get_localgrid({c[:dim]}, {r}): {exc}", case)
+                            continue
+                        ref, ties = brute(pts.astype(float), w, vecs[dim], np.atleast_1d(np.asarray(cen, dtype=float)), r)
+                        if ties:
+                            ctx.inadm(section="integer-points")
+                            continue
+                        ctx.nontrivial(("integer-points", dim, np.dtype(dt).name, tuple(c[:dim]), r), section="integer-points")
+                        key = lambda loc: sorted((int(i), tuple(np.round(np.atleast_1d(np.asarray(q, dtype=float)), 9) + 0.0)) for i, q in zip(np.asarray(loc.indices), np.asarray(loc.points)))
+                        if key(b) != ref:
+                            ctx.violation("integer-points:float-copy:wrong-images", f"dim {dim}: float points, centre {c[:dim]}, radius {r}: {len(key(b))} images, brute force {len(ref)}", case)
+                        if key(a) != key(b):
+                            ctx.violation("integer-points:differs-from-float-points", f"dim {dim}: points as {np.dtype(dt).name}, centre {c[:dim]}, radius {r}: "
+                                          f"{len(key(a))} images, the same points in floats give {len(key(b))} (or other positions)", case)
+
+
 def run(ctx):
     from vf import explore
+
+    ctx.guarded("integer-points", integer_points, ctx)
 
     for conf in World.CONF:
         for wrap in (False, True):
@@ -546,6 +594,8 @@ def replay(ctx, case):
         from vf import explore
 
         return explore.replay_history(ctx, case)
+    if case.get("route") == "integer-points":
+        return integer_points(ctx)
     if case.get("exact-nd"):
         return ctx.merge(_exact_nd_case((case["lattice"], case["wrap"], ctx.seed)))
     if case.get("exact"):
